@@ -100,8 +100,11 @@ def native_lane_replay(make_algo, make_state, train_patch, N=3):
             st = eqx.tree_at(lambda s: s.step_state, st, same)
             with extract.patched(train_patch):
                 out = algo.iteration(st, key=key, callback=cb)
-            l0, l1 = lane_leaves(out, 0), lane_leaves(out, 1)
-            if all(a.shape == b.shape and np.array_equal(a, b, equal_nan=True) for a, b in zip(l0, l1)):
+            def step_leaves(lane):      # per-environment leaves only (the optimiser / policy parameters are shared, not per lane)
+                return [np.asarray(jax.random.key_data(x) if jax.dtypes.issubdtype(x.dtype, jax.dtypes.prng_key) else x)[lane] for x in jax.tree.leaves(out.step_state)
+                        if eqx.is_array(x) and x.ndim >= 1 and x.shape[0] == N]
+            l0, l1 = step_leaves(0), step_leaves(1)
+            if l0 and all(a.shape == b.shape and np.array_equal(a, b, equal_nan=True) for a, b in zip(l0, l1)):
                 return dict(reproduced=True, route="R1 relational (real iteration, all lanes started from identical states)", inputs=dict(N=N, key=11),
                             observed=dict(problem="lanes 0 and 1 produced identical rollouts: they share one key"))
             return dict(reproduced=False, note=f"{2 * (len(POISON) - 1)} poisoned runs leave the observed lane bit-identical; identical start states give different rollouts")
